@@ -51,7 +51,7 @@ def main():
         if "--skip-suite" not in sys.argv:
             os.remove(os.path.join(wt, cdir, "tests", os.path.basename(demo)))
             t0 = time.time()
-            rc, o = sh("cargo test -p %s --offline %s --no-fail-fast -- --test-threads 8 2>&1 | grep -E '^test result|FAILED|failed' " % (crate, feats), wt, env)
+            rc, o = sh("cargo test -p %s --offline %s --lib --tests --no-fail-fast -- --test-threads 8 2>&1 | grep -E '^test result|FAILED|failed' " % (crate, feats), wt, env)
             lines = [l for l in o.splitlines() if l.strip()]
             bad = [l for l in lines if ("FAILED" in l or "failed" in l) and "0 failed" not in l and "doctest" not in l.lower() and " - " not in l]
             res["suite_with_patch"] = "pass" if not bad else "FAIL: " + "; ".join(bad[:5])
